@@ -399,7 +399,65 @@ def check_r2(facts, rep, crate):
                     rep.ok(rid, key, where, "chunk removed when it becomes empty after advance")
                 else:
                     rep.bad(rid, key, where, "chunk advanced in place is not removed when it becomes empty")
+        # any other in-place shrinking of a stored chunk must leave it non-empty
+        for bi, t in b.calls():
+            c = callee(t)
+            if not c or c["name"] not in ("truncate", "split_off", "split_to", "copy_to_bytes", "clear") or not t["args"]:
+                continue
+            if "Vec" in c.get("def", "") and c["name"] in ("truncate", "split_off", "clear"):
+                continue        # the chunk vector itself, not a chunk
+            tgt = tr.operand(t["args"][0])
+            if not any(x.kind == "call" and x[6] in ("first_mut", "index_mut", "get_mut", "last_mut", "iter_mut") for x in walk(tgt)):
+                continue
+            n += 1
+            rep.analysed(b)
+            where = "%s (%s)" % (loc_str(t["loc"]), b.path)
+            key = "%s/%s-in-place" % (b.path, c["name"])
+            amt = t["args"][1] if len(t["args"]) > 1 else None
+            if c["name"] in ("truncate", "split_off"):
+                if amt is not None and _dominated_nonzero(facts, b, tr, bi, tr.operand(amt)):
+                    rep.ok(rid, key, where, "the chunk keeps a non-zero number of bytes (dominating `!= 0` test of the kept length)")
+                else:
+                    rep.bad(rid, key, where, "a stored chunk is cut in place to a length that may be 0 and stays in the chain: chunk() can return an empty "
+                                             "slice while remaining() > 0 (Buf contract)")
+            elif c["name"] == "clear":
+                rep.bad(rid, key, where, "a stored chunk is emptied in place and stays in the chain")
+            else:
+                if amt is not None and _dominated_strictly_less(facts, b, tr, bi, tr.operand(amt)):
+                    rep.ok(rid, key, where, "strictly fewer bytes than the chunk holds are taken from it")
+                else:
+                    rep.bad(rid, key, where, "bytes are taken from the front of a stored chunk in place without a dominating `n < chunk.len()` test and without "
+                                             "removing the chunk when it becomes empty: a request for exactly the chunk's length leaves an empty chunk in the "
+                                             "chain (chunk() empty while remaining() > 0; owned and borrowed chunks behave differently)")
     rep.floor(rid, "chunk insertions / in-place advances", n, 4)
+
+
+def _dominated_strictly_less(facts, b, tr, site, node):
+    """A dominating edge on which `node < <some>.len()` holds."""
+    sn = strip(node)
+    for bb in range(len(b.blocks)):
+        if b.term(bb)["k"] != "SwitchInt" or not b.dominates(bb, site) or bb == site:
+            continue
+        g = guard_at(facts, b, tr, bb)
+        if g is None or g.kind != "bool":
+            continue
+        p = strip(g.pred)
+        if p.kind != "bin" or p[1] not in ("Lt", "Gt", "Le", "Ge"):
+            continue
+        l, r = strip(p[2]), strip(p[3])
+        def is_len(x):
+            return x.kind == "call" and x[6] in ("len", "remaining")
+        want = None
+        if (l == sn or (leaves(l) & leaves(sn) and not is_len(l))) and is_len(r):
+            want = {"Lt": True, "Ge": False}.get(p[1])
+        elif (r == sn or (leaves(r) & leaves(sn) and not is_len(r))) and is_len(l):
+            want = {"Gt": True, "Le": False}.get(p[1])
+        if want is None:
+            continue
+        for succ, v in g.edges:
+            if v == want and b.edge_dominates((bb, succ), site):
+                return True
+    return False
 
 
 def _dominated_nonzero(facts, b, tr, site, node):
